@@ -19,6 +19,13 @@ UNCOVERED_OK = {
 }
 
 
+def is_input_normalisation(n):
+    """`x = np.array(x)`: a list/tuple column is turned into an array (the quantity returns an ndarray in every scenario)"""
+    return (isinstance(n, ast.Assign) and len(n.targets) == 1 and isinstance(n.targets[0], ast.Name) and isinstance(n.value, ast.Call)
+            and ast.unparse(n.value.func) in ("np.array", "numpy.array", "np.asarray", "numpy.asarray") and len(n.value.args) == 1
+            and isinstance(n.value.args[0], ast.Name) and n.value.args[0].id == n.targets[0].id)
+
+
 def content_effect_fill(paths, content_fields):
     """Does one row influence the node's content fields in the scalar path?  {'none','value','poison'} over all paths."""
     out = set()
@@ -283,7 +290,7 @@ def coverage_guard(repo, prims, names=("fill", "_numpy"), rep=None):
                 if (f.module.relpath, n.lineno) in Machine.COVERED:
                     continue
                 # the body of a branch that only raises / statements after which only a raise follows are validation paths
-                if norm(n) in UNCOVERED_OK:
+                if is_input_normalisation(n):
                     continue
                 msg = (f"{f.construct}: statement `{norm(n)[:70]}` (line {n.lineno}) is not reached by any scenario of the abstract "
                        f"interpreter: the comparison would be vacuous for it")
